@@ -310,9 +310,12 @@ def run(ctx):
 
     cli_runs = 0
     clock = {"reads": 0, "span": None}
-    if not quick and not rep.violations:
-        cli_runs, clock = cli_layer(ctx, rep, workloads)
+    if not rep.violations:
+        cli_runs = cli_layer(ctx, rep, workloads, n=int((24 if quick else 400) * ctx.scale))
         evaluations += cli_runs
+    if not rep.violations:
+        clock = clock_layer(ctx, rep, n=int((120 if quick else 3000) * ctx.scale))
+        evaluations += clock["runs"]
 
     warn = []
     if not perms_applied:
@@ -367,26 +370,30 @@ def header_split(text):
 
 def normalise_cli(text):
     head, rest = header_split(text)
-    head = [("<timestamp line>" if ln.startswith("generated by json2python-models") else ln) for ln in head]
     # only the text after " at " in the timestamp line may differ: keep the prefix
+    head = [(ln.split(" at ", 1)[0] + " at <timestamp>" if ln.startswith("generated by json2python-models") else ln)
+            for ln in head]
     return "\n".join(head), rest
 
 
-def cli_layer(ctx, rep, workloads):
+def cli_layer(ctx, rep, workloads, n):
+    """The real CLI as a subprocess (`python -m json_to_models`, real files, real clock) under 4 hash seeds per
+    workload: stdout must be identical except the timestamp line of the header."""
+    from concurrent.futures import ThreadPoolExecutor
     from .. import loader
-    n = int(150 * ctx.scale)
     rng = seeds.derive(ctx.seed, PROP, "cli")
-    runs = 0
     scratch = tempfile.mkdtemp(prefix="j2m-c06-", dir="/dev/shm" if os.path.isdir("/dev/shm") else None)
     try:
-        picks = [w for w in workloads if len(w["models"]) >= 1][:n]
+        picks = workloads[:n]
+        tasks = []
         for j, w in enumerate(picks):
             argv = []
             for mi, (name, samples) in enumerate(w["models"]):
                 fn = os.path.join(scratch, f"w{j}_m{mi}.json")
                 with open(fn, "w", encoding="utf-8") as f:
                     _json.dump(samples, f, ensure_ascii=False)
-                argv += ["-m", name, fn]
+                import re as _re
+                argv += ["-m", _re.sub(r"\W", "", name) or "M", fn]
             o = w["options"]
             argv += ["-f", o["framework"], "-s", o["structure"], "--merge", *o["merge"],
                      "--max-strings-literals", str(o["max_literals"])]
@@ -398,30 +405,93 @@ def cli_layer(ctx, rep, workloads):
                 argv += ["--dkr", *o["dict_keys_regex"]]
             if o["dict_keys_fields"]:
                 argv += ["--dkf", *o["dict_keys_fields"]]
-            outs = []
             hs_list = [0] + [rng.randrange(1, 2 ** 32) for _ in range(3)]
             for hs in hs_list:
-                env = dict(os.environ, PYTHONHASHSEED=str(hs), PYTHONPATH=loader.repo_dir())
-                env.pop("TRAVIS", None)
-                env.pop("FORCE_COVERAGE", None)
-                p = subprocess.run([PYTHON, "-m", "json_to_models", *argv], capture_output=True, text=True,
-                                   env=env, timeout=120, cwd=scratch)
-                runs += 1
-                outs.append((p.returncode, normalise_cli(p.stdout)))
-            if any(x != outs[0] for x in outs[1:]):
-                k = next(i for i, x in enumerate(outs) if x != outs[0])
-                rep.violation("cli-subprocess:" + seeds.digest(w)[:10], {
-                    "kind": "cli-subprocess", "workload": w, "argv_tail": argv, "hashseeds": [hs_list[0], hs_list[k]],
-                    "clause": "CLI stdout identical except the timestamp line",
-                }, f"real CLI subprocess differs between PYTHONHASHSEED={hs_list[0]} and {hs_list[k]}: "
-                   + first_diff({"text": outs[0][1][1]}, {"text": outs[k][1][1]}))
-                break
+                tasks.append((j, hs, argv))
+
+        def one(task):
+            j, hs, argv = task
+            env = dict(os.environ, PYTHONHASHSEED=str(hs), PYTHONPATH=loader.repo_dir(), PYTHONIOENCODING="utf-8")
+            env.pop("TRAVIS", None)
+            env.pop("FORCE_COVERAGE", None)
+            p = subprocess.run([PYTHON, "-m", "json_to_models", *argv], capture_output=True, env=env,
+                               timeout=180, cwd=scratch)
+            return j, hs, argv, p.returncode, normalise_cli(p.stdout.decode("utf-8", "replace"))
+
+        with ThreadPoolExecutor(max_workers=max(2, ctx.jobs)) as ex:
+            results = list(ex.map(one, tasks))
+        by = {}
+        for j, hs, argv, rc, norm in results:
+            by.setdefault(j, []).append((hs, argv, rc, norm))
+        for j, outs in sorted(by.items()):
+            base = outs[0]
+            for o in outs[1:]:
+                if (o[2], o[3]) != (base[2], base[3]):
+                    rep.violation("cli-subprocess:" + seeds.digest(picks[j])[:10], {
+                        "kind": "cli-subprocess", "workload": picks[j], "argv_tail": base[1], "hashseeds": [base[0], o[0]],
+                        "clause": "CLI stdout identical except the timestamp line",
+                    }, f"real CLI subprocess differs between PYTHONHASHSEED={base[0]} and {o[0]}: "
+                       + first_diff({"text": base[3][1]}, {"text": o[3][1]}))
+                    return len(results)
+        return len(results)
     finally:
         shutil.rmtree(scratch, ignore_errors=True)
-    return runs, {"reads": 0, "span": None, "note": "clock-jump runs are part of C16 (in-process CLI with simulated clock)"}
+
+
+def clock_layer(ctx, rep, n):
+    """Simulated clock: the same CLI scenario at two different simulated instants (jumps, skew, extreme dates) may differ
+    only in the timestamp line of the header; at the same instant the bytes are identical."""
+    from ..scenario import cli_spec, gen_scenario
+    from .c16 import CLOCKS
+    runs = []
+    for i in range(n):
+        rng = seeds.derive(ctx.seed, PROP, "clock", i)
+        sc = gen_scenario(rng, want_out=False)
+        a = {"start": rng.choice(CLOCKS) + rng.randrange(86400), "steps": [0]}
+        b = {"start": rng.choice(CLOCKS) + rng.randrange(86400), "steps": [rng.choice([0, -86400 * 366, 86400 * 31, 3600])]}
+        runs.append((sc, a, b, rng.getrandbits(32)))
+    specs = []
+    for sc, a, b, g in runs:
+        specs += [cli_spec(sc, clock=a, glob_seed=g), cli_spec(sc, clock=a, glob_seed=g), cli_spec(sc, clock=b, glob_seed=g)]
+    with Pool(ctx.jobs, instrument=True) as pool:
+        recs = [unwrap(r) for r in pool.map("simenv:job_cli", specs, timeout=120)]
+    reads, lo, hi = 0, None, None
+    for i, (sc, a, b, g) in enumerate(runs):
+        r1, r2, r3 = recs[3 * i:3 * i + 3]
+        for r in (r1, r2, r3):
+            reads += r["clock"]["reads"]
+            for t in (r["clock"]["first"], r["clock"]["last"]):
+                if t is not None:
+                    lo = t if lo is None else min(lo, t)
+                    hi = t if hi is None else max(hi, t)
+        mask = lambda t, d: t.replace(d, "<DIR>")
+        o1, o2, o3 = mask(r1["stdout"], r1["dir"]), mask(r2["stdout"], r2["dir"]), mask(r3["stdout"], r3["dir"])
+        bad = None
+        if (r1["status"], o1) != (r2["status"], o2):
+            bad = "same simulated instant, different bytes: " + first_diff({"text": o1}, {"text": o2})
+        elif r1["status"] != r3["status"] or normalise_cli(o1) != normalise_cli(o3):
+            bad = "different simulated instants change more than the timestamp line: " + \
+                  first_diff({"text": "\n".join(normalise_cli(o1))}, {"text": "\n".join(normalise_cli(o3))})
+        if bad:
+            rep.violation("clock:" + ("same-instant" if "same simulated" in bad else "other-lines"), {
+                "kind": "clock", "scenario": sc, "clocks": [a, b], "glob_seed": g,
+                "clause": "only the timestamp line of the header may differ"}, bad)
+            break
+    return {"runs": len(recs), "reads": reads, "span": [lo, hi],
+            "note": "the only time in the system is one clock read for the header; span = range of simulated instants served"}
 
 
 def replay(ctx, payload):
+    if payload.get("kind") == "clock":
+        from ..scenario import cli_spec
+        sc, (a, b), g = payload["scenario"], payload["clocks"], payload["glob_seed"]
+        with Pool(2, instrument=True) as pool:
+            r1, r3 = [unwrap(r) for r in pool.map("simenv:job_cli", [cli_spec(sc, clock=a, glob_seed=g),
+                                                                    cli_spec(sc, clock=b, glob_seed=g)])]
+        o1, o3 = r1["stdout"].replace(r1["dir"], "<DIR>"), r3["stdout"].replace(r3["dir"], "<DIR>")
+        if normalise_cli(o1) != normalise_cli(o3):
+            return True, "different simulated instants change more than the timestamp line"
+        return False, "only the timestamp line differs"
     if payload.get("kind") == "real-interpreters":
         cfgs = [tuple(c) for c in payload["configs"]]
         res = real_sweep(cfgs, [payload["workload"]])
